@@ -168,7 +168,19 @@ func (g *GaussianSampler) read(pol Poly, f func(a, b, c uint64) uint64) {
 			}
 
 			for j, qi := range moduli {
-				coeffs[j][i] = f(coeffs[j][i], (coeffInt*sign)|(qi-coeffInt)*(sign^1), qi)
+
+				// The magnitude may exceed a small modulus.
+				c := coeffInt
+				if c >= qi {
+					c %= qi
+				}
+
+				// sign = 0 -> negative value
+				if sign == 0 {
+					c = qi - c
+				}
+
+				coeffs[j][i] = f(coeffs[j][i], c, qi)
 			}
 		}
 	}
